@@ -330,6 +330,8 @@ class Sym:
                 return _np.frompyfunc(g, 1, 1)(o)
         if not isinstance(o, (Sym,) + _NUM):
             return NotImplemented
+        if type(o).__name__ == "SymFP" and type(self).__name__ != "SymFP":
+            return NotImplemented  # the floating-point operand's reflected method takes over
         a, b = (o, self) if r else (self, o)
         ta, tb, isint = _arith3(a, b)
         if res == "real":
@@ -469,6 +471,8 @@ class Sym:
         if o is None:
             return NotImplemented
         if not isinstance(o, (Sym,) + _NUM):
+            return NotImplemented
+        if type(o).__name__ == "SymFP" and type(self).__name__ != "SymFP":
             return NotImplemented
         if isinstance(self, SymBool) and isinstance(o, (SymBool, bool, _np.bool_)):
             ta, tb = z3.If(self.t, 1, 0), z3.If(tobool(o), 1, 0)
